@@ -1,4 +1,5 @@
-/* C10: dt_strfdt / dt_strfd / dt_strft with arbitrary format, value and buffer size */
+/* C10: dt_strfdt (what every tool prints through) with arbitrary format, value and buffer size;
+ * dt_strfd / dt_strft are not called directly by the tools */
 #include "fz_common.h"
 #include "dt-core.h"
 
@@ -46,18 +47,6 @@ int LLVMFuzzerTestOneInput(const uint8_t *data, size_t size)
 	}
 	if (n) {
 		fz_nontrivial++;
-	}
-	if (kind != 2 && !v.sandwich) {
-		n = dt_strfd(buf, bsz, fmt, v.d);
-		if (n > bsz) {
-			FZ_FAIL("dt_strfd returned %zu for a buffer of %zu", n, bsz);
-		}
-	}
-	if (kind != 1) {
-		n = dt_strft(buf, bsz, fmt, v.t);
-		if (n > bsz) {
-			FZ_FAIL("dt_strft returned %zu for a buffer of %zu", n, bsz);
-		}
 	}
 	free(buf);
 	free(fmt);
